@@ -209,6 +209,10 @@ def gen_impl(r, structs, used_pairs):
     st = r.choice(structs)
     proto = "can" if r.random() < 0.3 else ident(r)  # 'can' is the protocol the dbc / can_c / cpp back ends look for
     rename = ident(r) if r.random() < 0.4 else None
+    if r.random() < 0.06:
+        # a declared (renamed) binding on the protocol spelled 'default' - next to the implicit default binding of its struct
+        proto = "default"
+        rename = rename or ident(r)
     if rename is not None and r.random() < 0.15:
         rename = r.choice(["assist", "asas", "ass5_a", "as_", "ask", "asX1"])
     name = rename or st["name"]
